@@ -933,12 +933,12 @@ class HistogramBase(abc.ABC):
 
     def _set_contents(self, frequencies: np.ndarray, errors2: np.ndarray) -> None:
         """Set frequencies and errors2 together: both, or (if one is refused) neither."""
-        previous = self._frequencies
-        self.frequencies = frequencies
+        previous = self._dtype, self._frequencies, self._errors2, self._missed
         try:
+            self.frequencies = frequencies  # (the setters promote the dtype if needed)
             self.errors2 = errors2
         except ValueError:
-            self._frequencies = previous
+            self._dtype, self._frequencies, self._errors2, self._missed = previous
             raise
 
     def __iadd__(self, other):
@@ -1010,7 +1010,6 @@ class HistogramBase(abc.ABC):
                     new_dtype
                 )
                 missed = self._missed - other._missed
-                self._coerce_dtype(new_dtype)
                 self._set_contents(frequencies, errors2)
                 self._missed = missed
             self._stats = INVALID_STATISTICS
@@ -1039,14 +1038,18 @@ class HistogramBase(abc.ABC):
                 # The same for np.float16 / np.float32 (300**2 is inf in float16)
                 factor_dtype = np.dtype(np.float64)
                 scalar = float(other)
+            if (
+                factor_dtype.kind in "iuf"
+                and scalar < 0
+                and not config.free_arithmetics
+            ):
+                # (the frequencies setter refuses negative contents, but empty bins stay zero
+                # while underflow / overflow / missed would turn negative)
+                raise ValueError("Cannot have negative frequencies.")
             try:
                 self._coerce_dtype(factor_dtype)
             except ValueError as v:
                 raise TypeError(str(v)) from v
-            if scalar < 0 and not config.free_arithmetics:
-                # (the frequencies setter refuses negative contents, but empty bins stay zero
-                # while underflow / overflow / missed would turn negative)
-                raise ValueError("Cannot have negative frequencies.")
             # Calculate (and possibly fail) before anything is changed
             frequencies = self.frequencies * scalar
             errors2 = self.errors2 * scalar**2
